@@ -576,3 +576,93 @@ func isConstInt(v ssa.Value, k int64) bool {
 	c, ok := constInt(v)
 	return ok && c == k
 }
+
+// correlatedReturns: v = extract #idx of a call to a module function with several results (value, ok) / (value, err) /
+// (signal, stop), used in block `at`.  The guards that dominate `at` and test *other* results of the same call (err ==
+// nil, ok, stop) select which return statements of the callee can have produced v: a return whose tested result is a
+// constant (or a freshly made value) contradicting the guard is excluded.  Returns the values the remaining returns
+// put at position idx (nil, false when the call is not of that form).
+func correlatedReturns(p *Prog, ex *ssa.Extract, at *ssa.BasicBlock) ([]ssa.Value, bool) {
+	call, ok := ex.Tuple.(*ssa.Call)
+	if !ok {
+		return nil, false
+	}
+	callee := call.Call.StaticCallee()
+	if callee == nil || callee.Blocks == nil || !p.InModule(callee) {
+		return nil, false
+	}
+	type want struct {
+		idx    int
+		isNil  *bool // result idx must (not) be nil
+		isTrue *bool // boolean result idx must be true/false
+	}
+	var wants []want
+	for _, g := range GuardsAt(at) {
+		switch c := g.Cond.(type) {
+		case *ssa.Extract:
+			if c.Tuple == ex.Tuple && c.Index != ex.Index {
+				t := g.Truth
+				wants = append(wants, want{idx: c.Index, isTrue: &t})
+			}
+		case *ssa.UnOp:
+			if e2, ok := c.X.(*ssa.Extract); ok && c.Op == token.NOT && e2.Tuple == ex.Tuple && e2.Index != ex.Index {
+				t := !g.Truth
+				wants = append(wants, want{idx: e2.Index, isTrue: &t})
+			}
+		case *ssa.BinOp:
+			if c.Op != token.EQL && c.Op != token.NEQ {
+				continue
+			}
+			var other ssa.Value
+			if isNilConst(c.Y) {
+				other = c.X
+			} else if isNilConst(c.X) {
+				other = c.Y
+			}
+			if e2, ok := other.(*ssa.Extract); ok && e2.Tuple == ex.Tuple && e2.Index != ex.Index {
+				n := (c.Op == token.EQL) == g.Truth
+				wants = append(wants, want{idx: e2.Index, isNil: &n})
+			}
+		}
+	}
+	var out []ssa.Value
+	instrsOf(callee, func(in ssa.Instruction) {
+		ret, ok := in.(*ssa.Return)
+		if !ok || ex.Index >= len(ret.Results) {
+			return
+		}
+		for _, w := range wants {
+			if w.idx >= len(ret.Results) {
+				continue
+			}
+			r := ret.Results[w.idx]
+			if w.isNil != nil {
+				knownNil := isNilConst(r)
+				knownNonNil := false
+				switch y := r.(type) {
+				case *ssa.Alloc, *ssa.MakeInterface, *ssa.MakeMap, *ssa.MakeSlice, *ssa.MakeClosure:
+					knownNonNil = true
+				case *ssa.Call:
+					if sc := y.Call.StaticCallee(); sc != nil && (extName(sc) == "fmt.Errorf" || extName(sc) == "errors.New") {
+						knownNonNil = true
+					}
+				case *ssa.Extract:
+					// the signal of an evaluation is never nil (C07/P6 return-signal, decided separately)
+					if c, ok := y.Tuple.(*ssa.Call); ok && y.Index == 1 && c.Call.StaticCallee() != nil && c.Call.StaticCallee() == p.findEval() {
+						knownNonNil = true
+					}
+				}
+				if (*w.isNil && knownNonNil) || (!*w.isNil && knownNil) {
+					return // this return cannot be the one the guard let through
+				}
+			}
+			if w.isTrue != nil {
+				if c, ok := r.(*ssa.Const); ok && c.Value != nil && c.Value.Kind() == constant.Bool && constant.BoolVal(c.Value) != *w.isTrue {
+					return
+				}
+			}
+		}
+		out = append(out, ret.Results[ex.Index])
+	})
+	return out, true
+}
